@@ -17,7 +17,7 @@ NEEDS = ["harness", "cli"]
 EXHAUSTIVE = {"quick": True, "thorough": True}
 RULE = ("exhaustive: every GT string over alleles {., 0, 1, 2, 3, 70}, separators {/, |}, ploidy 1-3 (942 strings; the lone '.' is VCF's "
         "missing-VALUE token, not a ploidy-1 genotype, and is excluded from the oracle's domain - 941 classified), each in its own "
-        "one-record two-sample input, x role {selected, unselected, one of two selected samples next to a complete/missing/multiallelic one, before and after it, with and without projection} x container {vcf, raw bcf, bgzf bcf, bgzf vcf}; quick runs L2 for all and C "
+        "one-record two-sample input, x role {selected, unselected, one of two selected samples next to a complete/missing/multiallelic one, before and after it, without projection and (every diploid string) under EVERY projection target of one population of two samples (0-4 chromosomes, odd and even shapes, --project-shape and --project-individuals) and of two one-sample populations (0-2 chromosomes each) - whether the site still counts then depends on the classification} x container {vcf, raw bcf, bgzf bcf, bgzf vcf}; quick runs L2 for all and C "
         "for vcf + raw bcf, thorough all four containers at C. Further: every GT string over {., 0} at records without an ALT allele; a non-diploid genotype in an unselected column that precedes the selected one. A supplementary (not exhaustive) sweep uses allele indices 255..2^63-1 around powers of two in the VCF path. Non-trivial: every string except 0/0; distinct = (string, role, container, level).")
 ASSUMPTIONS = ["'./2' style strings (missing AND multiallelic) may be reported with either reason; only 'skipped' is required",
                "allele 70 forces an int16 GT vector in BCF"]
